@@ -224,7 +224,7 @@ namespace TAO_PEGTL_NAMESPACE
                      return false;
                   }
                   ++b;
-               } while( ( !in.empty() ) && is_digit( c = in.peek_char( b ) ) );
+               } while( ( in.size( b + 1 ) > b ) && is_digit( c = in.peek_char( b ) ) );
                in.bump_in_this_line( b );
                return true;
             }
